@@ -2,4 +2,6 @@
 EXTENDS Couplers
 G2 == {-2, -1, 0, 1, 2}
 G1 == {-1, 0, 1}
+TAVals == {-2, -1, 0, 1, 3, 12, 100}      \* thorough "addv": two- and three-digit values as well
+KHN1 == {<<2, 3, 1>>}                      \* the long penalty lists: one iteration setting
 ====
